@@ -39,7 +39,7 @@ def plan(tier):
 
 
 def n_cases(tier):
-    return 2500 if tier == 'thorough' else 120
+    return 15000 if tier == 'thorough' else 200
 
 
 def one_case(rng, tier):
